@@ -237,6 +237,10 @@ def mk_branch_elements(spec, tag, shared=None):
 
 
 def mk_branch(spec, tag, shared=None):
+    if spec["kind"] == "nested":
+        # a Split whose branches are all fill/compute sequences is a fill/compute element itself and is given
+        # to the outer Split as it is (it copies for its own branches, the outer one must copy for it)
+        return Split([tuple(mk_branch_elements(s, 100 + 10 * tag + j)) for j, s in enumerate(spec["inner"])])
     els = mk_branch_elements(spec, tag, shared)
     tag = spec.get("tag", tag)
     if spec["kind"] in ("bare", "source"):
@@ -264,6 +268,12 @@ def with_twin(case):
 def alone(spec, tag, blocks, driver):
     """The branch alone on private deep copies: list (per block) of result
     lists plus the final results."""
+    if spec["kind"] == "nested":
+        final = []
+        for j, s in enumerate(spec["inner"]):
+            pb, fin = alone(s, 100 + 10 * tag + j, blocks, driver)
+            final.extend(fin)
+        return [[] for _ in blocks], final
     els = mk_branch_elements(spec, tag)
     per_block, final = [], []
     if spec["kind"] == "source":
@@ -361,6 +371,11 @@ def branch_case(draw):
         elif kind == "bare":
             term = draw(st.sampled_from(["sum", "sum", "count"]))
         muts = draw(st.lists(mut_strat, min_size=0, max_size=3)) if kind not in ("bare", "source") else []
+        if kind == "fc" and driver in ("run", "fill_compute") and draw(st.integers(0, 5)) == 0:
+            inner = [{"kind": "fc", "muts": draw(st.lists(mut_strat, min_size=0 if j == 0 else 1, max_size=2)),
+                      "term": draw(st.sampled_from(["snap", "snap", "sum"]))} for j in range(draw(st.integers(1, 3)))]
+            branches.append({"kind": "nested", "inner": inner, "muts": [], "term": None})
+            continue
         if driver == "run" and kind in ("fc", "fr") and draw(st.integers(0, 2)) == 0:
             # the branch stops taking values (LenaStopFill) after k of them
             pos = draw(st.integers(0, len(muts)))
